@@ -189,6 +189,43 @@ S.item(
 )(solve_case)
 
 
+# Targets on 7..9 vertices found by a seeded search (on the unchanged tree) for which the solver's time-reversed
+# measurement step meets a generator of sign -1 (it has to flip the emitter before the measure-and-reset).  On n <= 6
+# vertices this never happens, so these - and the seeded random graphs of the same sizes - are what exercises that
+# sign repair.  They are ordinary members of the property's domain ("every target graph state").
+SIGNED_MEASUREMENT_TARGETS = [
+    (7, [[0,2],[1,3],[1,5],[1,6],[2,3],[2,5],[2,6],[3,4],[3,5],[3,6]]),
+    (7, [[0,1],[2,4],[2,5],[2,6],[3,5],[3,6],[4,6],[5,6]]),
+    (7, [[0,1],[0,2],[0,3],[0,6],[1,3],[1,6],[3,4],[3,5],[3,6],[4,5],[4,6],[5,6]]),
+    (7, [[0,3],[1,3],[1,4],[1,6],[2,3],[4,5],[4,6],[5,6]]),
+    (8, [[0,1],[0,3],[0,7],[1,2],[1,4],[1,7],[2,3],[2,4],[2,5],[2,7],[3,4],[3,7],[4,6],[4,7],[5,6],[5,7],[6,7]]),
+    (8, [[0,1],[0,2],[0,6],[0,7],[1,3],[1,5],[1,7],[2,5],[2,7],[3,5],[3,6],[4,7],[5,6],[6,7]]),
+    (8, [[0,1],[0,2],[0,3],[0,5],[0,7],[1,2],[1,4],[1,6],[1,7],[2,3],[2,4],[2,6],[2,7],[3,4],[3,6],[3,7],[4,5],[4,6],[4,7],[5,6],[6,7]]),
+    (8, [[0,1],[0,2],[0,3],[0,4],[0,5],[0,6],[0,7],[1,2],[1,3],[1,4],[1,5],[1,6],[2,4],[2,5],[2,6],[3,4],[3,5],[3,6],[4,5],[5,7],[6,7]]),
+    (8, [[0,1],[0,2],[1,3],[1,4],[1,5],[1,6],[2,3],[2,4],[2,5],[2,6],[3,4],[3,5],[3,7],[4,5]]),
+    (8, [[0,3],[0,4],[0,7],[1,3],[1,4],[1,5],[2,4],[2,7],[4,5],[4,6],[4,7]]),
+    (8, [[0,3],[0,4],[0,7],[1,2],[1,3],[1,4],[1,5],[1,6],[1,7],[2,4],[2,5],[2,6],[2,7],[3,4],[3,5],[3,6],[3,7],[4,6],[4,7],[5,6],[5,7],[6,7]]),
+    (8, [[0,1],[0,3],[0,4],[0,5],[0,7],[1,2],[1,5],[1,7],[2,3],[3,4],[4,5],[4,7],[5,6],[5,7]]),
+    (8, [[0,1],[0,2],[1,2],[3,4],[3,6],[3,7],[4,5],[4,6],[4,7],[5,6],[6,7]]),
+    (9, [[0,3],[0,5],[0,6],[0,7],[0,8],[1,3],[1,4],[1,5],[1,7],[2,3],[2,4],[3,4],[3,5],[3,8],[4,6],[4,7],[4,8],[5,8]]),
+    (9, [[0,4],[1,3],[2,4],[2,5],[2,6],[2,7],[2,8],[3,4],[3,5],[3,6],[3,7],[5,6],[5,8],[6,7]]),
+    (9, [[0,8],[1,3],[1,8],[2,4],[4,6],[4,7],[5,6],[5,8],[6,8]]),
+    (9, [[0,2],[1,5],[1,8],[3,4],[3,6],[3,7],[4,5],[4,6],[5,7],[5,8],[6,8]]),
+    (9, [[0,5],[0,6],[0,7],[0,8],[1,5],[1,6],[1,7],[2,3],[4,5],[4,6],[5,6],[5,7]]),
+    (9, [[0,1],[0,2],[0,3],[0,4],[0,5],[0,6],[0,7],[1,2],[1,4],[1,5],[1,6],[1,7],[1,8],[2,3],[2,4],[2,5],[2,6],[2,7],[2,8],[3,4],[3,5],[3,6],[3,7],[3,8],[4,6],[4,7],[4,8],[5,7],[5,8],[6,7],[6,8],[7,8]]),
+    (9, [[0,1],[0,2],[0,5],[0,8],[1,2],[1,3],[1,5],[2,3],[4,5],[4,6],[4,7],[5,7],[5,8],[6,8]]),
+]
+
+S.item(
+    "solve.exact.large",
+    site=SITE,
+    bound="20 fixed graphs on 7..9 vertices (signed time-reversed measurements) + seeded random graphs without isolated "
+    "vertex on 7..9 vertices (quick 160, thorough 3000), given as graph and as stabilizer QuantumState, stabilizer compiler; "
+    "refsem state vector (up to 13 qubits) over every combination of measurement outcomes",
+    clause="same contract as solve.exact on larger targets (emitter sign corrections before mid-circuit measurements)",
+)(solve_case)
+
+
 @S.item(
     "result.real_backends",
     site="graphiq.backends.compiler_base:CompilerBase.compile (on solver.result[1])",
@@ -280,6 +317,19 @@ def run(tier, seed):
                 gens.append({"n": n, "edges": edges, "rep": "s", "comp": "stab", "M": M})
             for comp in ("stab", "dm"):
                 backends.append({"n": n, "edges": edges, "comp": comp})
+    large = []
+    for n, edges in SIGNED_MEASUREMENT_TARGETS:
+        for rep in ("g", "s"):
+            large.append({"n": n, "edges": edges, "rep": rep, "comp": "stab"})
+    for k in range(3000 if tier == "thorough" else 160):
+        n = 7 + k % 3
+        while True:
+            A = np.triu((rng.random((n, n)) < rng.uniform(0.3, 0.9)).astype(int), 1)
+            edges = [[i, j] for i in range(n) for j in range(i + 1, n) if A[i, j]]
+            if not _has_isolated(n, edges):
+                break
+        large.append({"n": n, "edges": edges, "rep": "gs"[k % 2], "comp": "stab"})
+    S.map("solve.exact.large", large, nontrivial=nt, chunksize=2)
     S.map("solve.vertex_order", orders, nontrivial=nt)
     S.map("solve.generating_set", gens, nontrivial=nt)
     S.map("result.real_backends", backends, nontrivial=nt)
